@@ -101,6 +101,8 @@ struct ProdEv {
     blocks: u64,
     /// waits for a lock held by another task during the call (not counted in `blocks`)
     lock_waits: u64,
+    /// failed compare-exchange operations during the call (a lock-free retry loop)
+    cas_failures: u64,
     step_at: u64,
     step_before: u64,
     gate_closed: bool,
@@ -269,9 +271,9 @@ fn call<R>(f: impl FnOnce() -> R) -> Result<R, String> {
 }
 
 /// (own steps, blocked states other than short waits for a mutex, global step)
-fn stats3() -> (u64, u64, u64, u64) {
+fn stats3() -> (u64, u64, u64, u64, u64) {
     let (a, b, lock_waits) = kernel::my_stats3();
-    (a, b, kernel::steps(), lock_waits)
+    (a, b, kernel::steps(), lock_waits, kernel::my_cas_failures())
 }
 
 /// The text of metric `id` emitted by task `me`: unique, optionally with a multi-byte tail whose
@@ -296,7 +298,7 @@ fn run_prog(task_no: usize, ops: &[QOp], first: QueuingMetricSink, sh: &Arc<Shar
     slots[0] = Some(first);
     let me = kernel::current_task().unwrap_or(0);
     let _ = task_no;
-    let record = |sh: &Shared, what: &str, id: Option<u32>, s: String, res: ApiRes, before: (u64, u64, u64, u64), gate_closed: bool| {
+    let record = |sh: &Shared, what: &str, id: Option<u32>, s: String, res: ApiRes, before: (u64, u64, u64, u64, u64), gate_closed: bool| {
         let after = kernel::my_stats3();
         sh.prod.lock().unwrap().push(ProdEv {
             task: me,
@@ -307,6 +309,7 @@ fn run_prog(task_no: usize, ops: &[QOp], first: QueuingMetricSink, sh: &Arc<Shar
             steps: after.0 - before.0,
             blocks: after.1 - before.1,
             lock_waits: after.2 - before.3,
+            cas_failures: kernel::my_cas_failures() - before.4,
             step_at: kernel::steps(),
             step_before: before.2,
             gate_closed,
@@ -575,6 +578,7 @@ fn sim_main(case: QCase) -> Obs {
                 steps: after.0 - before.0,
                 blocks: after.1 - before.1,
                 lock_waits: after.2 - before.3,
+                cas_failures: kernel::my_cas_failures() - before.4,
                 step_at: kernel::steps(),
                 step_before: before.2,
                 gate_closed: false,
@@ -954,6 +958,12 @@ impl Engine for E3 {
 /// they went in. Entries the shim could describe are left alone (a queued text that differs from
 /// the emitted one must stay visible).
 fn normalise_chan(mut chan: Vec<ChanEvent>, prod: &[ProdEv]) -> Vec<ChanEvent> {
+    // a queue of byte vectors is a queue of metrics too
+    for c in chan.iter_mut() {
+        if let Some(b) = c.payload.strip_prefix("B:") {
+            c.payload = format!("S:{b}");
+        }
+    }
     if !chan.iter().any(|c| c.payload == "?") {
         return chan;
     }
@@ -999,9 +1009,8 @@ fn judge(case: &QCase, main: &Option<Obs>, end_tasks: &[TaskInfo], out: &mut Out
                 &["C10"]
             } else if label.starts_with("drop") {
                 &["C09"]
-            } else if label.starts_with("clone") || label.starts_with("read") {
-                &["C10", "C15"]
             } else {
+                // (no statement says that clone or a counter read never waits: harness error below)
                 &[]
             };
             if props.is_empty() || rendezvous {
@@ -1131,6 +1140,13 @@ fn judge(case: &QCase, main: &Option<Obs>, end_tasks: &[TaskInfo], out: &mut Out
     // "the sink keeps accepting metrics" after a panic is C11's as well
     let panic_c10: Vec<&str> = if panics_fired > 0 { vec!["C10", "C11"] } else { vec!["C10"] };
     // ---- C10: emit never waits, result is a function of queue room, capacity never exceeded ----
+    // The oracles below read the queue through the hooked channel. A variant whose queue is
+    // something else (its own lock-protected deque, a std channel) leaves no trace there: that is
+    // "cannot observe", not "wrong".
+    if obs.prod.iter().any(|e| e.what == "emit" && matches!(e.res, ApiRes::Ok(_))) && !obs.chan.iter().any(|c| (c.op == "try_send" || c.op == "send") && c.payload.starts_with("S:")) {
+        out.harness_error = Some("the queue is not observable: emits were acknowledged but no metric was ever put on a hooked channel (a variant that queues through something the shims do not see?)".to_string());
+        return;
+    }
     // occupancy counted in METRICS (entries of any other kind a variant may put on the same channel
     // do not make the queue "hold its capacity"): accepted and not yet taken off by the worker
     let metric_occ: Vec<(u64, usize)> = {
@@ -1147,6 +1163,41 @@ fn judge(case: &QCase, main: &Option<Obs>, end_tasks: &[TaskInfo], out: &mut Out
         }
         v
     };
+    // accepted and not yet handed to the wrapped sink (an entry the worker has taken off the channel
+    // but not yet handed over still counts: a variant that keeps its own count may well count it)
+    let outstanding_max = |lo: u64, hi: u64| -> usize {
+        let mut ev: Vec<(u64, i32)> = Vec::new();
+        for c in obs.chan.iter().filter(|c| (c.op == "try_send" || c.op == "send") && c.ok && c.payload.starts_with("S:")) {
+            ev.push((c.step, 1));
+        }
+        for e in &obs.log {
+            if let Ev::SinkEnter { step, .. } = e {
+                ev.push((*step, -1));
+            }
+        }
+        // within one step number: arrivals before departures (lenient)
+        ev.sort_by_key(|(s, d)| (*s, -*d));
+        let mut cur: i64 = 0;
+        let mut best: i64 = 0;
+        let mut seen_lo = false;
+        for (s, d) in ev {
+            if s > hi {
+                break;
+            }
+            if s >= lo && !seen_lo {
+                seen_lo = true;
+                best = best.max(cur);
+            }
+            cur += d as i64;
+            if s >= lo {
+                best = best.max(cur);
+            }
+        }
+        if !seen_lo {
+            best = best.max(cur);
+        }
+        best.max(0) as usize
+    };
     // (several events can carry the same step number: look events up by their position in the log)
     let occ_before_step = |step: u64| -> usize { metric_occ.iter().filter(|(s, _)| *s <= step).last().map(|(_, o)| *o).unwrap_or(0) };
     for e in obs.prod.iter().filter(|e| e.what == "emit") {
@@ -1158,8 +1209,16 @@ fn judge(case: &QCase, main: &Option<Obs>, end_tasks: &[TaskInfo], out: &mut Out
         }
         // the real emit takes 2 steps; a variant that takes short locks needs a few more, and a
         // few per wait for such a lock; a loop that polls for queue room needs unboundedly many
-        if e.steps > 12 + 8 * e.lock_waits {
-            out.violate(&["C10"], "queue.emit-not-prompt", format!("emit {} took {} scheduling steps of its own task ({} waits for a lock)", e.s, e.steps, e.lock_waits));
+        // (a failed compare-exchange of a lock-free retry loop costs a step or two as well; a loop
+        // that polls with plain loads gets no such allowance)
+        if e.steps > 12 + 8 * e.lock_waits + 3 * e.cas_failures {
+            out.violate(&["C10"], "queue.emit-not-prompt", format!("emit {} took {} scheduling steps of its own task ({} waits for a lock, {} failed compare-exchanges)", e.s, e.steps, e.lock_waits, e.cas_failures));
+        }
+        // H: whatever the wrapped sink answers stays on the background thread
+        if let ApiRes::Err(msg) = &e.res {
+            if msg.contains("fault#") {
+                out.violate(&["C10"], "queue.sink-error-surfaced-in-emit", format!("emit {} returned an error of the wrapped sink: {msg}", e.s));
+            }
         }
         // the channel event of this emit
         let ce_idx = obs.chan.iter().position(|c| (c.op == "try_send" || c.op == "send") && c.payload.starts_with("S:") && c.payload[2..] == e.s && c.task == e.task);
@@ -1189,7 +1248,7 @@ fn judge(case: &QCase, main: &Option<Obs>, end_tasks: &[TaskInfo], out: &mut Out
                     match case.cap {
                         None => out.violate(&panic_c10, "queue.unbounded-refused", format!("an unbounded queue refused {}: {msg}", e.s)),
                         Some(cap) => {
-                            let held = ce_idx.map(|i| metric_occ[i].1).unwrap_or(0);
+                            let held = ce_idx.map(|i| metric_occ[i].1).unwrap_or(0).max(outstanding_max(e.step_before, e.step_at));
                             if held < cap {
                                 out.violate(&panic_c10, "queue.refused-with-room", format!("emit {} was refused ({msg}) while the queue held {held} metric(s) of {cap} ({} entries of any kind)", e.s, c.len_after));
                             }
@@ -1206,7 +1265,7 @@ fn judge(case: &QCase, main: &Option<Obs>, end_tasks: &[TaskInfo], out: &mut Out
                     Some(cap) => {
                         let before = occ_before_step(e.step_before);
                         let during: Vec<usize> = metric_occ.iter().filter(|(s, _)| *s > e.step_before && *s <= e.step_at).map(|(_, o)| *o).collect();
-                        let max_occ = during.iter().copied().chain(std::iter::once(before)).max().unwrap_or(0);
+                        let max_occ = during.iter().copied().chain(std::iter::once(before)).max().unwrap_or(0).max(outstanding_max(e.step_before, e.step_at));
                         if max_occ < cap {
                             out.violate(&panic_c10, "queue.refused-with-room", format!("emit {} was refused ({msg}) while the queue never held more than {max_occ} of {cap} during the call", e.s));
                         }
@@ -1218,12 +1277,9 @@ fn judge(case: &QCase, main: &Option<Obs>, end_tasks: &[TaskInfo], out: &mut Out
     }
     if let Some(cap) = case.cap {
         // only the channel(s) that carry metrics: a variant may use further channels of its own
-        let metric_chans: std::collections::BTreeSet<u64> = obs.chan.iter().filter(|c| c.payload.starts_with("S:")).map(|c| c.chan).collect();
-        for c in obs.chan.iter().filter(|c| metric_chans.contains(&c.chan)) {
-            if c.len_after > cap {
-                out.violate(&["C10"], "queue.capacity-exceeded", format!("the queue held {} entries, capacity given to the constructor is {cap}", c.len_after));
-                break;
-            }
+        // counted in metrics: a variant may reserve a slot for a marker of its own
+        if let Some((step, held)) = metric_occ.iter().find(|(_, o)| *o > cap) {
+            out.violate(&["C10"], "queue.capacity-exceeded", format!("at step {step} the queue held {held} metrics, capacity given to the constructor is {cap}"));
         }
     }
 
@@ -1281,9 +1337,8 @@ fn judge(case: &QCase, main: &Option<Obs>, end_tasks: &[TaskInfo], out: &mut Out
                         Some(&["C10"])
                     } else if t.label.starts_with("drop") {
                         Some(&["C09"])
-                    } else if t.label.starts_with("clone") || t.label.starts_with("read") {
-                        Some(&["C10", "C15"])
                     } else {
+                        // (no statement says that clone or a counter read never waits)
                         None
                     };
                     if let Some(props) = props {
@@ -1520,12 +1575,13 @@ fn judge(case: &QCase, main: &Option<Obs>, end_tasks: &[TaskInfo], out: &mut Out
     // ---- C11 / C15: counters at quiescent points ----
     for s in &obs.snaps {
         if let Some(c) = &s.counters {
-            out.probe("quiescent_counters_checked");
-            // every producer must be idle-finished for the counts to be comparable
-            let producers_done = s.tasks.iter().all(|t| t.anon || t.id == 0 || t.state == TState::Finished);
+            // every producer must be idle-finished for the counts to be comparable (the
+            // gatekeeper is a harness task that never touches the sink)
+            let producers_done = s.tasks.iter().all(|t| t.anon || t.id == 0 || t.name == "gatekeeper" || t.state == TState::Finished);
             if !producers_done {
                 continue;
             }
+            out.probe("quiescent_counters_checked");
             if c.submitted != s.acks {
                 out.violate(&["C15"], "queue.submitted-count", format!("at '{}': submitted() = {} but {} emits returned Ok", s.label, c.submitted, s.acks));
             }
